@@ -28,6 +28,7 @@ import re
 from .common import *
 from ..callgraph import CallGraph
 from ..writers import field_writers
+from ..tables import decided
 
 LEVEL = 'other'
 HOP_SOURCES = {'trippy_core::state::Hop::addrs': 0, 'trippy_core::state::Hop::addrs_with_counts': 0}
@@ -61,15 +62,36 @@ def fn_args(eng, st, fn):
     return args
 
 
+def privacy_predicates(prog):
+    """front-end functions that only compute a bool from privacy_max_ttl (a named form of the comparison): they read the field, return bool and
+    call nothing of this crate — their decision is evaluated in the caller's trace, with the caller's arguments, like the comparison they name"""
+    out = set()
+    for path, fn in prog.fns.items():
+        if not in_scope(path) or fn['kind'] == 'Closure' or fn['locals'][0]['ty'] != 'bool':
+            continue
+        reads = []
+
+        def see(pl):
+            for e in pl['p']:
+                if e['k'] == 'field' and e.get('n') == 'privacy_max_ttl':
+                    reads.append(1)
+        walk_places(fn['blocks'], see)
+        calls = [(b['term'].get('resolved') or b['term']['callee']) for b in fn['blocks'] if b['term']['k'] == 'call' and not b['cleanup']]
+        if reads and not any(c.startswith('trippy_tui::') for c in calls) and not any(c in HOP_SOURCES or c == SRC_ADDR for c in calls):
+            out.add(path)
+    return out
+
+
 class Traces:
     def __init__(self, prog):
         self.prog = prog
         self.cache = {}
+        self.preds = privacy_predicates(prog)
 
     def of(self, path):
         if path not in self.cache:
             fn = self.prog.fns[path]
-            eng = Engine(self.prog, inline_depth=0)
+            eng = Engine(self.prog, inline_depth=1, inline_filter=lambda c: c in self.preds)
             st = St()
             self.cache[path] = eng.run(fn, fn_args(eng, st, fn), st)
         return self.cache[path]
@@ -202,8 +224,8 @@ def run(chk, tier):
         else:
             chk.fail('R0', 'unclassified:%s' % short(callee), loc(t['sp']), '%s obtains addresses through %s, which no privacy rule covers' % (short(path), short(callee)),
                      key='R0|unclassified|%s|%s' % (short(path), short(callee)))
-    if n_src < 7:
-        chk.fail('R0', 'count', '-', 'only %d reveal source sites found (7 confirmed by hand): anchor lost' % n_src, key='R0|count')
+    if n_src < 5:
+        chk.fail('R0', 'count', '-', 'only %d reveal source sites found (7 confirmed by hand, floor 5): anchor lost' % n_src, key='R0|count')
     else:
         chk.ok('R0', 'flow-entries', 'Flow / FlowEntry never projected or formatted in the front end')
 
@@ -376,9 +398,14 @@ def run(chk, tier):
         chk.fail('R3', 'readers', '-', 'only %d MapEntry readers found (4 confirmed by hand): anchor lost' % len(readers), key='R3|readers')
 
     def any_guard_ok(o, ent, owner):
-        """decision any(iter(ent.hops), K) = 1 with K = |h| Some(*h) > P"""
+        """"some hop of the entry is shown" holds on the trace: any(iter(ent.hops), |h| Some(*h) > P) = 1, or, the same set of orderings,
+        all(iter(ent.hops), |h| P >= Some(*h)) = 0"""
+        PT = r'env\.\d+\.tui_config\.privacy_max_ttl'
+        SHOWN = r'Gt\(Option::Some\(p1\), %s\)|Lt\(%s, Option::Some\(p1\)\)' % (PT, PT)
+        HIDDEN = r'Ge\(%s, Option::Some\(p1\)\)|Le\(Option::Some\(p1\), %s\)' % (PT, PT)
         for a, v, _ in o.st.decisions:
-            if not (isinstance(a, tuple) and a[0] == 'term' and re.search(r'::any$|^call:\w+::any$', a[1]) and len(a[2]) == 2):
+            m_ = isinstance(a, tuple) and a[0] == 'term' and len(a[2]) == 2 and re.search(r'(?:::|^call:\w+::)(any|all)$', a[1])
+            if not m_:
                 continue
             if vshow(a[2][0]) not in ('call:slice::iter(field:hops(%s))' % ent, 'call:slice::iter(%s.hops)' % ent):
                 continue
@@ -387,10 +414,11 @@ def run(chk, tier):
                 continue
             kouts = tr.of(k[1])
             vals = {vshow(x.value) for x in kouts if x.kind == 'return'}
-            good = vals and all(re.fullmatch(r'Gt\(Option::Some\(p1\), env\.\d+\.tui_config\.privacy_max_ttl\)|Lt\(env\.\d+\.tui_config\.privacy_max_ttl, Option::Some\(p1\)\)', x) for x in vals)
+            want, holds = (SHOWN, 1) if m_.group(1) == 'any' else (HIDDEN, 0)
+            good = vals and all(re.fullmatch(want, x) for x in vals)
             if not good:
-                return 'bad:%s' % sorted(vals)
-            if v == 1:
+                return 'bad:%s %s' % (m_.group(1), sorted(vals))
+            if v == holds:
                 return 'ok'
         return None
 
@@ -501,37 +529,76 @@ def run(chk, tier):
     else:
         chk.fail('R5', 'writers', '-', 'privacy_max_ttl is written by %s (expected expand_privacy, contract_privacy and the constructor only)' % wf, key='R5|writers')
 
-    def table(rx, want):
+    PV = 'a0.tui_config.privacy_max_ttl'
+    HOPS = 'len(call:State::hops_for_flow(call:TuiApp::tracer_data(a0), a0.selected_flow))'
+
+    def table(rx, classify, want):
+        """every trace falls into one class of the specified transition (whatever spelling decides it) and writes exactly that class's value"""
         f = prog.find(rx)
         chk.fn_seen(f['path'])
-        got = {}
-        for o in tr.of(f['path']):
-            d = tuple((vshow(a), v if not isinstance(v, tuple) else 'other') for a, v, _ in o.st.decisions)
-            ws = tuple(vshow(e[3]) for e in o.st.events if e[0] == 'write' and e[2] == 'privacy_max_ttl')
-            oth = [e[2] for e in o.st.events if e[0] == 'write' and e[2] != 'privacy_max_ttl']
-            got[d] = (ws, o.kind, tuple(oth))
-        rows = sorted(got.items(), key=lambda kv: str(kv[0]))
-        ok = len(rows) == len(want)
-        for (d, (ws, kind, oth)) in rows:
-            hit = [wv for (drx, wv) in want if len(drx) == len(d) and all(re.fullmatch(r_, a) and v == ev for (r_, ev), (a, v) in zip(drx, d))]
-            if not hit or tuple(hit[0]) != ws or kind != 'return':
-                ok = False
         inst = short(f['path'])
+        seen = {}
+        ok, why = True, ''
+        rows = []
+        for o in tr.of(f['path']):
+            dec = [(vshow(a_), v_) for a_, v_, _ in o.st.decisions]
+            ws = [vshow(e[3]) for e in o.st.events if e[0] == 'write' and e[2] == 'privacy_max_ttl']
+            rows.append('%s → %s' % (dec, ws or 'unchanged'))
+            if o.kind != 'return':
+                ok, why = False, 'a trace ends in %s' % o.kind
+                continue
+            some = None
+            for a_, v_ in dec:
+                if a_ == 'discr(%s)' % PV:
+                    some = 1 if v_ == 1 else 0 if (v_ == 0 or (isinstance(v_, tuple) and v_[0] == 'ne' and set(v_[1]) == {1})) else None
+            cls = classify(some, o.st.decisions, dec)
+            known = {'discr(%s)' % PV}
+            if cls is None:
+                ok, why = False, 'a trace decides on conditions outside the specified transition: %s' % dec
+                continue
+            rx_, unchanged_ok = want[cls]
+            good = (len(ws) == 1 and re.fullmatch(rx_, ws[0])) if rx_ else (not ws or (unchanged_ok and len(ws) == 1 and re.fullmatch(unchanged_ok, ws[0])))
+            if not good:
+                ok, why = False, 'in case "%s" privacy_max_ttl becomes %s' % (cls, ws or 'unchanged')
+            seen[cls] = seen.get(cls, 0) + 1
+        if ok and set(seen) != set(want):
+            ok, why = False, 'cases %s are never distinguished' % sorted(set(want) - set(seen))
         if ok:
-            chk.ok('R5', inst, '; '.join('%s → %s' % ([(a[-40:], v) for a, v in d], list(ws) or 'unchanged') for d, (ws, _, _) in rows))
+            chk.ok('R5', inst, '; '.join('%s: %d trace(s)' % kv for kv in sorted(seen.items())))
         else:
-            chk.fail('R5', inst, fn_loc(f), '%s must move privacy by exactly one step: found %s' % (inst, ['%s → %s' % ([(a, v) for a, v in d], list(ws) or 'unchanged') for d, (ws, _, _) in rows]), key='R5|%s' % inst)
-    P = r'a0\.tui_config\.privacy_max_ttl'
-    table(r'tui_app::TuiApp::expand_privacy$', [
-        (((r'discr\(%s\)' % P, 1), (r'Lt\(field:0\(%s\), len\(call:State::hops_for_flow\(call:TuiApp::tracer_data\(a0\), a0\.selected_flow\)\)\)' % P, 1)), ['Option::Some(Add(field:0(a0.tui_config.privacy_max_ttl), 1))']),
-        (((r'discr\(%s\)' % P, 1), (r'Lt\(field:0\(%s\), len\(call:State::hops_for_flow\(call:TuiApp::tracer_data\(a0\), a0\.selected_flow\)\)\)' % P, 0)), []),
-        (((r'discr\(%s\)' % P, 'other'),), ['Option::Some(0)']),
-    ])
-    table(r'tui_app::TuiApp::contract_privacy$', [
-        (((r'discr\(%s\)' % P, 1), (r'Gt\(field:0\(%s\), 0\)' % P, 1)), ['Option::Some(Sub(field:0(a0.tui_config.privacy_max_ttl), 1))']),
-        (((r'discr\(%s\)' % P, 1), (r'Gt\(field:0\(%s\), 0\)' % P, 0)), ['Option::None']),
-        (((r'discr\(%s\)' % P, 'other'),), []),
-    ])
+            chk.fail('R5', inst, fn_loc(f), '%s must move privacy by exactly one step: %s; found %s' % (inst, why, rows), key='R5|%s' % inst)
+
+    def cls_expand(some, decisions, dec):
+        if some == 0:
+            return 'off'
+        if some != 1:
+            return None
+        lt = decided(decisions, 'Lt(field:0(%s), %s)' % (PV, HOPS))
+        return None if lt is None else ('below' if lt else 'at-end')
+
+    def cls_contract(some, decisions, dec):
+        if some == 0:
+            return 'off'
+        if some != 1:
+            return None
+        x = 'field:0(%s)' % PV
+        pos = decided(decisions, 'Gt(%s, 0)' % x)
+        if pos is None:
+            pos = decided(decisions, 'Ne(%s, 0)' % x)       # unsigned: > 0 is != 0
+        if pos is None:
+            for a_, v_ in dec:
+                if a_ == x:                                   # an integer match on the value itself
+                    pos = 0 if v_ == 0 else 1 if (isinstance(v_, tuple) and v_[0] == 'ne' and 0 in set(v_[1])) else None
+        return None if pos is None else ('positive' if pos else 'zero')
+    FV = r'field:0\(a0\.tui_config\.privacy_max_ttl\)'
+    table(r'tui_app::TuiApp::expand_privacy$', cls_expand, {
+        'off': (r'Option::Some\(0\)', None),
+        'below': (r'Option::Some\(Add\(%s, 1\)\)|Option::Some\(Add\(1, %s\)\)' % (FV, FV), None),
+        'at-end': (None, r'Option::Some\(%s\)|a0\.tui_config\.privacy_max_ttl' % FV)})
+    table(r'tui_app::TuiApp::contract_privacy$', cls_contract, {
+        'off': (None, r'Option::None|a0\.tui_config\.privacy_max_ttl'),
+        'positive': (r'Option::Some\(Sub\(%s, 1\)\)' % FV, None),
+        'zero': (r'Option::None', None)})
     # key bindings: the call sites of expand_privacy / contract_privacy sit on the true edge of their own binding's check
     from ..cfg import CFG
     for name in ('expand_privacy', 'contract_privacy'):
